@@ -589,6 +589,44 @@ func collectConsts(pkgs []*pkgInfo) (map[string]string, []string) {
 	return vals, lines
 }
 
+// helpers: unexported functions of the same package that a target calls and that are not targets themselves (an extracted
+// helper) are translated too, tagged `gen_helper` so that the tie proofs unfold them
+func (t *translator) helpers(fn *ast.FuncDecl, pkg string, decls map[string]*ast.FuncDecl, sb *strings.Builder, depth int) {
+	if depth > 3 || fn.Body == nil {
+		return
+	}
+	ast.Inspect(fn.Body, func(n ast.Node) bool {
+		c, ok := n.(*ast.CallExpr)
+		if !ok {
+			return true
+		}
+		id, ok := c.Fun.(*ast.Ident)
+		if !ok || ast.IsExported(id.Name) {
+			return true
+		}
+		if _, known := t.fns[id.Name]; known {
+			return true
+		}
+		d, ok := decls[pkg+"."+id.Name]
+		if !ok || d.Recv != nil || d.Body == nil {
+			return true
+		}
+		info, ok := t.resultKind(d)
+		if !ok {
+			return true
+		}
+		t.helpers(d, pkg, decls, sb, depth+1)
+		text := t.function(d, info)
+		if strings.Contains(text, "_untranslatable") {
+			return true
+		}
+		t.fns[id.Name] = info
+		sb.WriteString(strings.Replace(text, "/-- literal translation of", "/-- (helper) literal translation of", 1))
+		sb.WriteString("attribute [gen_helper] " + id.Name + "\n\n")
+		return true
+	})
+}
+
 func genFns(pkgs []*pkgInfo, out string) {
 	consts, constLines := collectConsts(pkgs)
 	t := &translator{consts: consts, fns: map[string]fnInfo{}, bools: map[string]bool{}}
@@ -604,7 +642,7 @@ func genFns(pkgs []*pkgInfo, out string) {
 		}
 	}
 	var sb strings.Builder
-	sb.WriteString("/- GENERATED by /verif/extract from the Go source of the repository — do not edit. -/\nimport SpatialId.Basic\nnamespace SpatialId.Gen\nopen SpatialId\n\n")
+	sb.WriteString("/- GENERATED by /verif/extract from the Go source of the repository — do not edit. -/\nimport SpatialId.Basic\nimport SpatialId.GenAttr\nnamespace SpatialId.Gen\nopen SpatialId\n\n")
 	sb.WriteString(strings.Join(constLines, "\n") + "\n\n")
 	for _, tg := range targets {
 		fn, ok := decls[tg.pkg+"."+tg.name]
@@ -617,6 +655,7 @@ func genFns(pkgs []*pkgInfo, out string) {
 			sb.WriteString(fmt.Sprintf("/-- NOT TRANSLATED: unsupported result type -/\ndef %s_untranslatable : String := \"unsupported result type\"\n\n", tg.name))
 			continue
 		}
+		t.helpers(fn, tg.pkg, decls, &sb, 0)
 		t.fns[tg.name] = info
 		sb.WriteString(t.function(fn, info))
 	}
